@@ -306,10 +306,10 @@ func (x *Exec) externalCall(c *callCtx, name string) {
 		x.pureUF(c, name)
 		return
 	}
+	x.bumpAlloc(c.n, c.st)
 	for _, h := range x.prog.externalMods(c.common.Signature(), c.common.Args) {
 		x.havocVar(c.st, h)
 	}
-	x.bumpAlloc(c.n, c.st)
 	// places passed by address (cells) may be written by the callee
 	for _, a := range c.argVals {
 		if p, ok := c.fr.places[a]; ok && p.kind != pObj {
